@@ -103,7 +103,7 @@ func Pick[T any](r *R, q, th T) T {
 	return q
 }
 
-func (r *R) Eval(n int) { r.evals.Add(int64(n)) }
+func (r *R) Eval(n int)   { r.evals.Add(int64(n)) }
 func (r *R) Evals() int64 { return r.evals.Load() }
 
 // Nontrivial records a case (by key) that is non-trivial under the check's stated rule; distinct keys are counted.
